@@ -38,6 +38,14 @@ CLAIMS = {
              ref="§3 C19", note=NOTE_COMMON + " The byte-level JSON scanner/encoder (escaping, number syntax, UTF-8) is trusted std code outside the claim: 'every byte string' is covered as 'not JSON, or any tree the parser can produce'."),
  "C20": dict(text="Recording Observability whose start callbacks hand out child contexts with fresh ids; workloads mixing Once/Async/filtered/panicking handlers, cancelled contexts, absent/succeeding/failing persistence: pairs balanced, complete gets its start's context, error flags truthful, handler/persist contexts descend from the publish context.",
              ref="§3 C20", note=NOTE_COMMON + " The OpenTelemetry implementation (otel module) is claimed only once its entry is registered; the OTel SDK itself is outside the claim."),
+ "C02": dict(text="Two goroutines performing short symbolic sequences of Subscribe(Once/filter)/Unsubscribe/Clear/Publish on shared handlers: every interleaving of their synchronisation operations within the preemption bound is executed, with invoke/return stamps and the real-time delivery rule of Appendix C plus the quiescent must/may registry as oracle; race monitor on.",
+             ref="§3 C02, Appendix C", note=NOTE_COMMON + " Schedules are enumerated (lazy context-bounded scheme, iterative preemption bound), the solver decides the data under each schedule. Bounds: 2 goroutines, 2+1 (quick) / 2+2 (thorough) operations, at most 2 / 3 preemptions; more goroutines, operations or preemptions are outside the claim."),
+ "C03": dict(text="Happens-before race monitor and deadlock detector over every pair of concurrent API operations (registry, persistence/replay, upcast registry, memory store, materializer) within the preemption bound, plus every single re-entrant call from handler, filter, before- and after-hook (writer-preferring RWMutex model).",
+             ref="§3 C03", note=NOTE_COMMON + " Outside: SQLite, durable-streams and OTel SDK concurrency (database/sql, modernc sqlite and net/http are not encoded), configuration setters, more than two concurrent operations, preemptions above the bound."),
+ "C06": dict(text="Async handlers that yield mid-way and publish second-level async work, two async handlers of one type, Wait and Shutdown(ctx) racing with a canceller goroutine and a Close-counting store: every interleaving within the preemption bound.",
+             ref="§3 C06", note=NOTE_COMMON + " 'Every processor count' is subsumed by 'every schedule within the preemption bound'; real timers are outside."),
+ "C07": dict(text="Sequential handler (enter; yield; exit; may panic) under 2-3 concurrent synchronous publishers and under Async dispatch: never two invocations inside, every event exactly once; publish order of Async+Sequential is a recorded known finding (KF-C07-async-order), still checked so that it is reported once.",
+             ref="§3 C07", note=NOTE_COMMON),
 }
 
 NOT_APPLICABLE = {
